@@ -19,6 +19,7 @@ import (
 	"strings"
 	"sync"
 
+	"github.com/NethermindEth/juno/consensus/starknet"
 	"github.com/NethermindEth/juno/consensus/tendermint"
 	"github.com/NethermindEth/juno/consensus/types"
 	"github.com/NethermindEth/juno/consensus/types/actions"
@@ -257,8 +258,31 @@ func (rn *runner) bootModel(cfg *Cfg, height uint64) {
 		tb[i] = strconv.Itoa(t)
 	}
 	rn.ask(fmt.Sprintf("env %d %d %s %s", cfg.Me+1, cfg.PMul, strings.Join(pw, ","), strings.Join(tb, ",")))
+	if futureQuorumLogged {
+		rn.ask("opt log-future-quorum 1")
+	}
 	rn.ask(fmt.Sprintf("boot %d", height))
 }
+
+// futureQuorumLogged: does the real state machine log the precommit that completes a quorum of a
+// future height (proposed-fixes/C13-future-quorum-precommit-not-logged.diff applied)? Probed once on
+// the real machine; C12's model transcribes the behaviour without it.
+var futureQuorumLogged = func() bool {
+	cfg := &Cfg{Powers: []uint64{1, 1, 1, 1}, Tbl: []int{1}, Me: 3, AppMode: "stable"}
+	sm := tendermint.New[V, H, A](log.NewNopZapLogger(), addrOf(cfg.Me), &app{mode: "stable", height: 1, cfg: cfg}, cfg, 1)
+	sm.ProcessStart(0)
+	var last []actions.Action[V, H, A]
+	for s := 0; s < 3; s++ {
+		id := hashOf(9)
+		last = sm.ProcessPrecommit(&starknet.Precommit{MessageHeader: starknet.MessageHeader{Height: 3, Round: 0, Sender: addrOf(s)}, ID: &id})
+	}
+	for _, a := range last {
+		if _, ok := a.(*actions.WriteWAL[V, H, A]); ok {
+			return true
+		}
+	}
+	return false
+}()
 
 func entryHeight(tok string) int {
 	f := strings.Split(tok, ":")
@@ -1275,6 +1299,7 @@ func main() {
 	base := scratchBase()
 	defer os.RemoveAll(base)
 	res.SetExtra("scratch", filepath.Dir(base))
+	res.SetExtra("real_machine_logs_future_quorum_precommit", futureQuorumLogged)
 
 	if f.Replay != "" {
 		var file struct {
